@@ -105,6 +105,8 @@ def run(tier, seed):
                  "are NOT verified), or reported. Output per read <= max_read is part of the obligations (the output buffer is a "
                  "K1-sized region). Found the -pm2- copy_decode overrun (fixed in the repo).")
     with Context(tier) as ctx:
+        from .. import selfcheck
+        selfcheck.run(ctx, rep, ['range'])
         paths = ctx.views.inlined_many(DECODER_UNITS)
         plain = ctx.plain()
         with ProcessPoolExecutor(max_workers=min(12, os.cpu_count() or 4)) as ex:
